@@ -199,6 +199,12 @@ static void run_case(int k, const std::string & head, const std::string & body)
                for (std::map<std::string, std::vector<std::string> >::iterator it = V.replica.begin(); it != V.replica.end(); )
                   if (!view_subscribed(V, it->first)) V.replica.erase(it++); else ++it;
             }
+            else if (v == "ua")
+            {
+               // wildcarded parameter name: every subscription goes
+               MessageRef m = MkMsg(PR_COMMAND_REMOVEPARAMETERS); (void) m()->AddString(PR_NAME_KEYS, PR_NAME_SUBSCRIBE_PREFIX "*"); msgs.push_back(m);
+               V.subs.clear(); V.replica.clear();
+            }
             else if (v == "gd") {msgs.push_back(MkGetData(abs_pattern(w, a[1]))); getPats.push_back(a[1]);}
             else if (v == "rs")
             {
